@@ -4,7 +4,7 @@ from pyvc.api import REG
 from pyvc.engine import Exec
 from pyvc.program import Program
 [importlib.import_module('contracts.'+m) for m in __import__('contracts').MODULES]
-ex = Exec(Program('/repo'), REG)
+ex = Exec(Program(__import__('os').environ.get('VERIF_REPO','/repo')), REG)
 obls = ex.verify(sys.argv[1])
 for o in obls:
     if sys.argv[2] in o.name:
